@@ -162,7 +162,7 @@ Definition late_ok (expected : obs state) (l : option (obs state)) : bool :=
   match l with None => true | Some o => obs_eqb state_equiv expected o end.
 
 Record step_view := {
-  sv_model : obs state; sv_app : bool; sv_cons : bool; sv_spec : state;
+  sv_model : obs state; sv_app : bool; sv_cons : bool; sv_exact : bool; sv_spec : state;
   sv_agree : bool; sv_ok : bool;                 (* the state read back at once *)
   sv_late_agree : bool; sv_late_ok : bool        (* the same State object read back after the last call *)
 }.
@@ -200,7 +200,7 @@ Section Seq.
     let observed (dflt : state) := match ss_succ st with Returned x => x | Raised => dflt end in
     let m_next := if cons_m then match m_res with Ok s' => s' | Err _ => m_in end else observed m_in in
     let s_next := if app || ss_allow st then (if cons_s then nxt else observed s_in) else s_in in
-    ({| sv_model := obs_of_result m_res; sv_app := app; sv_cons := cons_s; sv_spec := nxt; sv_agree := agree; sv_ok := ok;
+    ({| sv_model := obs_of_result m_res; sv_app := app; sv_cons := cons_s; sv_exact := exact; sv_spec := nxt; sv_agree := agree; sv_ok := ok;
         sv_late_agree := late_agree; sv_late_ok := late_okb |},
      m_next, s_next).
 
@@ -334,7 +334,9 @@ Definition tags_seq (w : world3) (md : mdomain) (sd : sdomain) (q : seq3) : list
   match find_action sd (sq_action q) with
   | Some A0 =>
       let vs := seq_views w md sd (view_action w A0) q (sq_start q) (sq_start q) (sq_steps q) in
-      let t := if forallb sv_cons vs then "c"%char else "i"%char in [t; t]
+      (* I: every call with inconsistent firing groups was also compared exactly with the model (visiting order observed) *)
+      let t := if forallb sv_cons vs then "c"%char
+               else if forallb (fun v => sv_cons v || sv_exact v) vs then "I"%char else "i"%char in [t; t]
   | None => ["?"%char; "?"%char]
   end.
 
